@@ -898,6 +898,11 @@ def emit_fn(gen, sf, it, opts, blk, what, in_trait_impl, variant):
     raw = sf.src[it.start:it.end]
     log = []
     sig, body = transform_fn(raw, opts, blk, log, what, in_trait_impl)
+    if "external_body" not in opts and body is not None:
+        # rule E20: constants of the same source file that the function mentions are extracted too (see flush_consts)
+        gen.const_candidates = getattr(gen, "const_candidates", [])
+        for nm in sorted(set(re.findall(r"\b[A-Z][A-Z0-9_]{2,}\b", mask(body)))):
+            gen.const_candidates.append((sf, nm, what))
     src_line0 = sf.line_of(it.start)
     contract = [l for l in blk["contract"]]
     stub = "external_body" in opts
@@ -963,6 +968,30 @@ def emit_item(gen, sf, it, opts, blk, what):
     })
 
 
+def flush_consts(gen):
+    """Rule E20: a `const` item of the same source file that a function under contract mentions, and that the unit does
+    not define already (by an explicit `//@ extract .. const` or by hand), is extracted verbatim.  This keeps an edit
+    that introduces a named constant decidable instead of ending as `unknown identifier`."""
+    done = set()
+    for sf, nm, what in getattr(gen, "const_candidates", []):
+        if nm in done:
+            continue
+        if re.search(r"\b(const|static)\s+%s\b" % re.escape(nm), mask(gen.text())):
+            done.add(nm)
+            continue
+        try:
+            it = sf.find("const " + nm)
+        except ExtractError:
+            continue
+        done.add(nm)
+        raw = sf.src[it.start:it.end]
+        log = ["E20 constant mentioned by %s, extracted verbatim" % what]
+        text = rule_E4_vis(rule_E1_attrs(raw, log), "const", False, log)
+        gen.add(text, {"kind": "src", "file": sf.rel, "src_line0": sf.line_of(it.start), "fn": "const " + nm})
+        gen.items.append({"item": "const " + nm, "source": sf.rel, "lines": [sf.line_of(it.start), sf.line_of(it.end)],
+                          "sha256": hashlib.sha256(raw.encode()).hexdigest()[:16], "rules": log, "stub": False})
+
+
 def generate(template_path, variant="main"):
     """variant: main | canary-start | canary-end"""
     gen = Generated()
@@ -1012,6 +1041,8 @@ def _process(template_path, gen, variant):
         d = s[3:].strip()
         if d.startswith("include "):
             inc = os.path.join(VERIF, d[len("include "):].strip())
+            if os.path.basename(inc) == "tail.rs":
+                flush_consts(gen)
             _process(inc, gen, variant)
             i += 1
         elif d.startswith("extract "):
